@@ -198,8 +198,11 @@ num_files_pre_hook(kdump_ctx_t *ctx, struct attr_data *attr,
 		}
 	}
 
-	/* Delete superfluous attributes. */
-	if (i > n) {
+	/* Delete superfluous attributes. After an allocation failure, this
+	 * includes the slot that was being created (i equals n if that was
+	 * the first new slot).
+	 */
+	if (ret != KDUMP_OK || i > n) {
 		struct attr_data **pprev = &parent->dir;
 		while (*pprev) {
 			struct attr_data *dir = *pprev;
